@@ -77,16 +77,29 @@ def check(run):
         seq = M.setup(others)
         if k % 2:
             seq[0] = "rln new_params"        # an instance built from caller-supplied key and graph bytes behaves like the default one
+        loc = None
+        if k % 4 in (2, 3):
+            # a persistent location: the object is dropped and re-created on it between two proofs (flushed before)
+            import os, tempfile, shutil
+            loc = tempfile.mkdtemp(prefix="zkrln-", dir=os.environ.get("TMPDIR")); shutil.rmtree(loc)
+            seq[0] = f"rln {'new_at' if k % 4 == 2 else 'new_params_at'} {loc}"
         ext, signal = rand_fr(rng), bytes(rng.getrandbits(8) for _ in range(5))
         muts = [f"rln atomic 0x0 - 0x1,0x2", f"rln atomic 0x0 - 0x3", f"rln set_leaf 0x1 {hex(rand_fr(rng))}", f"rln delete 0x2",
                 f"rln set_next {hex(rand_fr(rng))}", f"rln set_leaves_from 0xc {hex(rand_fr(rng))},{hex(rand_fr(rng))}",
                 f"rln atomic 0xc {hex(rand_fr(rng))} -", f"rln atomic 0x0 - 0xa,0xb"]
         rng.shuffle(muts)
+        if loc:
+            muts = [muts[0], f"rln flush|{seq[0]}"] + muts[1:]
         for j, mu in enumerate(muts[: (3 if quick else 6)]):
+            if "|" in mu:
+                a_, b_ = mu.split("|")
+                req = rlngen.prove_request(secret, index, limit, j % limit, ext, signal)
+                seq += [f"rln prove_verify {hx(req)} {hx(signal)}", a_, b_, "rln root", "rln leaves_set"]
+                continue
             req = rlngen.prove_request(secret, index, limit, j % limit, ext, signal)
             seq += [f"rln prove_verify {hx(req)} {hx(signal)}", mu, "rln root"]
         req = rlngen.prove_request(secret, index, limit, (limit - 1), ext, signal)
         seq += [f"rln prove_verify {hx(req)} {hx(signal)}", f"rln get_proof {hex(index)}"]
         hseqs.append(seq)
-    run.rules.append("membership histories: the same registered member proves and verifies on one instance before and after every kind of tree update around it (single write, append, deletion, range write, batch with one or two removal indices); distinct = distinct history")
+    run.rules.append("membership histories: the same registered member proves and verifies on one instance before and after every kind of tree update around it (single write, append, deletion, range write, batch with one or two removal indices, flush + drop + re-creation of the object on a persistent location through both constructors); distinct = distinct history")
     run.differential("member-stays-member", hseqs, canon=lambda l, x: x, spec_canon=lambda l, x: x, shrink=False)
